@@ -24,6 +24,10 @@ func main() {
 		os.Exit(3)
 	}
 	id := os.Args[1]
+	if id == "__replica" {
+		prop.ReplicaMain(os.Args[2:])
+		return
+	}
 	if id == "list" {
 		for _, i := range prop.IDs() {
 			fmt.Println(i)
@@ -130,6 +134,10 @@ func main() {
 			lf := filepath.Join(tmp, fmt.Sprintf("case-%d.log", c))
 			cmd := exec.Command(bin, id, "--tier", *tier, "--seed", fmt.Sprint(*seed), "--case", fmt.Sprint(c), "--out", of)
 			cmd.Env = append(os.Environ(), "VERIF_CHILD_TMP="+tmp)
+			if raceSet[c] {
+				rl := filepath.Join(tmp, fmt.Sprintf("race-%d", c))
+				cmd.Env = append(cmd.Env, "GORACE=halt_on_error=0 log_path="+rl, "VERIF_RACE_LOG="+rl)
+			}
 			lfh, _ := os.Create(lf)
 			cmd.Stdout, cmd.Stderr = lfh, lfh
 			done := make(chan error, 1)
